@@ -465,6 +465,12 @@ class Run:
                               f"(no timeout task behind it)")
                 if self.in_fire == k:
                     self.stats["self_readd:raised"] = self.stats.get("self_readd:raised", 0) + 1
+                elif not self.sd and ident not in self.outstanding:
+                    # free identity, not shut down, and not the cache whose own timeout task is still running: a
+                    # request the cache refuses to track is never resolved (no claim, no timeout, futures never done)
+                    self.fail("RequestCache.add:refused-free-identity",
+                              f"add of request {k} under the free identity {ident} raised RuntimeError at {t} ms: the "
+                              f"request is not tracked, it will neither be claimed nor time out")
                 self.emit(f"add {self.idx[k]}", "raised")
                 return
             if self.sd:
@@ -484,6 +490,10 @@ class Run:
                 reply = "dup" if r is None else f"added {self.idx[k]}"
             else:
                 reply = f"added {self.idx[k]}" if r is o else "dup"
+                if r is not o:
+                    self.fail("RequestCache.add:refused-free-identity",
+                              f"add of request {k} under the free identity {ident} returned None at {t} ms although "
+                              f"the cache is not shut down: the request is not tracked")
             if r is o and not self.sd:
                 self.outstanding[ident] = k
                 self.deadline[k] = t + self.eff_delay(o)
